@@ -74,6 +74,7 @@ impl ParseData for FdiOptions {
 
     fn validate_body(&self, errors: &mut crate::error::Accumulator) {
         self.base.validate_body(errors);
+        self.base.validate_tuple_struct(true, errors);
     }
 }
 
